@@ -142,7 +142,7 @@ CLAIMED = {
        'sequences and segmentations, against the real Client/LmtpClient.',
   ref='6/C10', technique='Lean 4 proof (FIFO/alignment invariant over method sequences, uses the C17 theorem) + differential correspondence vs real smtp.Client/LmtpClient'),
  'C11': dict(
-  text='PARTIAL (DNS caching / TTLs and connection reuse are exercised by the correspondence campaign only; timeouts are scripted as an outcome). '
+  text='PARTIAL (connection reuse is exercised by the correspondence campaign and tied to the command model only; timeouts are scripted as an outcome; the resolver is a stub). '
        'Lean theorems over Model/Relay.lean (SmtpRelayClient._run/_handshake/_deliver/_check_replies/_fail, LmtpRelayClient, '
        'SmtpRelayError.factory, PipeRelay and HttpRelay result classification), for every downstream script: a recipient is reported delivered '
        'only if the connection was made, the handshake completed and the script gave well-formed non-error replies to MAIL, to that RCPT, to DATA '
@@ -153,7 +153,7 @@ CLAIMED = {
        'record n mod k so the first attempt uses a best-priority host and every host gets its turn, neither MX nor A records / an empty answer / a '
        'recipient without a domain is a permanent failure, a resolver error (also on the A fallback) a transient one. Tied to the code by running the real SmtpRelayClient/LmtpRelayClient/StaticSmtpRelay/MxSmtpRelay against a scripted peer on a socketpair '
        '(stage x outcome x pipelining x TLS x AUTH x 1..3 recipients), PipeRelay/MaildropRelay/DovecotLdaRelay against stub programs, HttpRelay '
-       'against a loopback HTTP peer and MxSmtpRelay with a stub resolver over every pair of MX / A answers x attempt numbers and seeded MX lists with ties. Also: every relay answers for every recipient it was handed (attempt_answers_everyone, pipe_answers_everyone, http_answers_everyone — the contract C01\'s composed theorems assume); and the result model agrees with the command model of Model/RelaySession.lean (delivered_means_content_was_sent: a recipient is reported delivered only if, on the same answers, the message data was written after MAIL / RCPT / DATA were answered and was accepted, with and without PIPELINING).',
+       'against a loopback HTTP peer and MxSmtpRelay with a stub resolver over every pair of MX / A answers x attempt numbers and seeded MX lists with ties. Also: every relay answers for every recipient it was handed (attempt_answers_everyone, pipe_answers_everyone, http_answers_everyone — the contract C01\'s composed theorems assume); and the result model agrees with the command model of Model/RelaySession.lean (delivered_means_content_was_sent: a recipient is reported delivered only if, on the same answers, the message data was written after MAIL / RCPT / DATA were answered and was accepted, with and without PIPELINING). The expiring cache of MxRecord is in the model (cacheGet / routeCached over a virtual clock): a fresh entry is served without asking the resolver; an expired one is never served (what get gives is what a brand-new record would give); an answer is kept exactly until the expiration computed from its times to live; a resolver error and a no-usable-record answer are not remembered (cache_fresh_no_query, cache_expired_asks_again, kept_until_ttl, resolver_error_not_cached, negative_answer_not_cached); tied by histories of attempts on one MxSmtpRelay under a virtual clock with changing answers, resolver queries counted.',
   ref='6/C11', technique='Lean 4 proof (case analysis of the attempt function over downstream scripts, induction on the LMTP merge) + differential correspondence vs real relay clients on scripted peers',
   note='Partial: DNS caching, connection reuse and real timeouts are covered by the correspondence campaign, not by theorems.'),
  'C19': dict(
